@@ -237,7 +237,14 @@ func init() {
 func runC19(c *RunCtx) {
 	t := c.T
 	names := []string{"ALG_A", "ALG_B", "ALG_C"}[:1+t.Intn(3)]
+	if t.Intn(4) == 0 {
+		// names that differ only by case, by a trailing blank, or are empty: distinct keys of one map
+		names = [][]string{{"ALG_A", "alg_a"}, {"ALG_A", "ALG_A "}, {"", "ALG_A"}, {"CRC32", "crc32", "CRC32 "}}[t.Intn(4)]
+	}
 	ntasks := 2 + t.Intn(3)
+	if c.Thorough && t.Intn(4) == 0 {
+		ntasks = 5 + t.Intn(2) // deeper tier: more clients, same cap of 24 operations per history
+	}
 	nextID := 100
 	var pre []*regSvc
 	// initial state
@@ -491,6 +498,9 @@ func runC20(c *RunCtx) {
 		c.Probe("all-tasks-on-one-discriminator-table")
 	}
 	ntasks := 2 + t.Intn(3)
+	if c.Thorough && t.Intn(4) == 0 {
+		ntasks = 5 + t.Intn(4)
+	}
 	plans := make([][]*parOp, ntasks)
 	for ti := range plans {
 		nops := 1 + t.Intn(4)
